@@ -59,6 +59,8 @@ class Ctx:
         self.worker = worker
         self.nworkers = nworkers
         self.t0 = time.monotonic()
+        self.cpu0 = time.process_time()
+        self._phase_end = None      # (cpu deadline, wall deadline) of the current phase, if any
         if budget_s is None:
             budget_s = float(os.environ.get("VERIF_BUDGET_S", 0)) or (40.0 if tier == "quick" else 420.0)
         self.budget_s = budget_s
@@ -90,7 +92,30 @@ class Ctx:
         return max(1, int(thorough * scale / self.nworkers))
 
     def time_left(self) -> float:
-        return self.budget_s - (time.monotonic() - self.t0)
+        """ soft budget, counted in CPU seconds of this process so that the amount of work done does not
+            depend on how loaded the machine is; wall-clock time only caps it at 3 x the budget """
+        cpu = time.process_time() - self.cpu0
+        wall = time.monotonic() - self.t0
+        left = min(self.budget_s - cpu, 3 * self.budget_s - wall)
+        if self._phase_end is not None:
+            left = min(left, self._phase_end[0] - cpu, self._phase_end[1] - wall)
+        return left
+
+    def phase(self, share: float):
+        """ context manager: the enclosed part of the workload may use at most `share` of the whole budget,
+            so that later parts are reached whatever the speed of the machine """
+        ctx = self
+
+        class _Phase:
+            def __enter__(self):
+                cpu = time.process_time() - ctx.cpu0
+                wall = time.monotonic() - ctx.t0
+                ctx._phase_end = (cpu + share * ctx.budget_s, wall + 3 * share * ctx.budget_s)
+
+            def __exit__(self, *exc):
+                ctx._phase_end = None
+                return False
+        return _Phase()
 
     def cases(self, n: int, every: int = 16):
         """ yields case indices until n or until the soft time budget is used up """
